@@ -104,6 +104,53 @@ Proof.
     try (destruct (Qgtb dx 0)); split; intros H; try discriminate; try reflexivity; try tauto.
 Qed.
 
+(* ---- the cardinal predicates of ortho.h (isHorizontalCard, isVerticalCard, isIncreasingCard, isDecreasingCard, sameDimension,
+   arePerpendicular), translated too: their algebra on the four cardinals, and their meaning on a computed direction *)
+Definition is_card (d : Z) : Prop := (0 <= d < 4)%Z.
+Lemma is_card_cases d : is_card d -> d = 0%Z \/ d = 1%Z \/ d = 2%Z \/ d = 3%Z.
+Proof. unfold is_card. lia. Qed.
+Ltac card_cases d H := destruct (is_card_cases d H) as [?|[?|[?|?]]]; subst d.
+
+Theorem card_predicates_algebra d0 d1 : is_card d0 -> is_card d1 ->
+  arePerpendicular d0 d1 = negb (sameDimension d0 d1) /\
+  sameDimension d0 d0 = true /\ sameDimension d0 (card_flip d0) = true /\
+  sameDimension d0 d1 = sameDimension d1 d0 /\
+  isHorizontalCard d0 = negb (isVerticalCard d0) /\ isIncreasingCard d0 = negb (isDecreasingCard d0) /\
+  (sameDimension d0 d1 = true <-> isHorizontalCard d0 = isHorizontalCard d1) /\
+  isIncreasingCard (card_flip d0) = isDecreasingCard d0 /\ isHorizontalCard (card_flip d0) = isHorizontalCard d0 /\
+  is_card (card_flip d0) /\ card_flip (card_flip d0) = d0.
+Proof.
+  intros H0 H1. card_cases d0 H0; card_cases d1 H1; vm_compute; repeat split; intros; try reflexivity; try discriminate; try lia.
+Qed.
+
+(* the compass versions agree with the cardinal ones on cardinals and are false on the four diagonals *)
+Theorem compass_predicates_on_cardinals d : is_card d ->
+  isHorizontal d = isHorizontalCard d /\ isVertical d = isVerticalCard d /\
+  isIncreasing d = isIncreasingCard d /\ isDecreasing d = isDecreasingCard d.
+Proof. intros H. card_cases d H; vm_compute; repeat split. Qed.
+
+Theorem compass_predicates_on_diagonals d : (4 <= d < 8)%Z ->
+  isHorizontal d = false /\ isVertical d = false /\ isIncreasing d = false /\ isDecreasing d = false.
+Proof.
+  intros H. assert (C : d = 4%Z \/ d = 5%Z \/ d = 6%Z \/ d = 7%Z) by lia.
+  destruct C as [?|[?|[?|?]]]; subst d; vm_compute; repeat split.
+Qed.
+
+(* meaning on a computed direction: horizontal iff x dominates (ties included), increasing iff the dominant delta is positive *)
+Theorem cardinalDirection_predicates p0 p1 :
+  let dx := ddx p0 p1 in let dy := ddy p0 p1 in let k := cardinalDirection p0 p1 in
+  (isHorizontalCard k = true <-> Qabs dy <= Qabs dx) /\
+  (isVerticalCard k = true <-> Qabs dx < Qabs dy) /\
+  (isIncreasingCard k = true <-> (Qabs dy <= Qabs dx /\ 0 < dx) \/ (Qabs dx < Qabs dy /\ 0 < dy)).
+Proof.
+  cbv zeta. destruct (cardinalDirection_spec p0 p1) as (E & W & S & N).
+  pose proof (cardinalDirection_range p0 p1) as R.
+  destruct (is_card_cases _ R) as [K|[K|[K|K]]]; rewrite K; vm_compute isHorizontalCard; vm_compute isVerticalCard; vm_compute isIncreasingCard;
+    [apply E in K | apply S in K | apply W in K | apply N in K]; destruct K as [K1 K2];
+    repeat split; intros; try discriminate; try reflexivity; try lra; try tauto;
+    try (match goal with H : _ \/ _ |- _ => destruct H as [[? ?]|[? ?]]; lra end).
+Qed.
+
 Example compass_nonvacuous :
   distinct (mkpt 0 0) (mkpt 3 (-1)) /\ cardinalDirection (mkpt 0 0) (mkpt 3 (-1)) = 0%Z /\
   compassDirection (mkpt 0 0) (mkpt 3 (-1)) = 7%Z /\ cardinalDirection (mkpt 1 1) (mkpt 1 5) = 1%Z.
